@@ -1,7 +1,7 @@
 ----------------------------- MODULE ThreadsAbs -----------------------------
 (* Property C20 over what a user of aws_thread can observe: launches, the thread function        *)
 (* running (on which thread), at-exit registrations and callbacks, join / join-all returning.    *)
-EXTENDS Naturals, Sequences, FiniteSets
+EXTENDS Naturals, Sequences, FiniteSets, Wide
 
 CONSTANTS Thr        \* scenario thread ids
 Onces == 1..3        \* once-flags of a scenario
@@ -15,6 +15,16 @@ VARIABLES st,        \* [Thr -> {"none", "launched", "running", "ended"}]
           once       \* [Onces -> {"no", "running", "done"}]  functions handed to aws_thread_call_once
 
 tvars == <<st, kind, tid, nreg, ncb, joined, mainTid, once>>
+
+(* the optional bound on join-all (aws_thread_set_managed_join_timeout_ns); times are Wide numbers of nanoseconds *)
+VARIABLES jto,       \* the time-out in force (WZero: unbounded, the default)
+          jt0        \* clock value when the join-all call in progress began
+jvars == <<jto, jt0>>
+(* A bounded join-all that reports success has returned within a second of its deadline.  On the virtual clock of the  *)
+(* harness the library's own deadline is exact; the slack covers a clock jump to the end of some thread's 1 ms sleep     *)
+(* between the library's last look at the clock and the harness reading it (scenarios let only managed threads sleep    *)
+(* longer, and those have finished when join-all succeeds).                                                             *)
+JoinSlack == WFromNat(1000000000)
 
 TInit0 ==
     /\ st = [i \in Thr |-> "none"] /\ kind = [i \in Thr |-> ""] /\ tid = [i \in Thr |-> 0 - 1]
@@ -75,10 +85,21 @@ JoinRet(i, rc) ==
     /\ joined' = [joined EXCEPT ![i] = TRUE]
     /\ UNCHANGED <<st, kind, tid, nreg, ncb, mainTid, once>>
 
-(* join-all returns only after every managed thread has finished; the outstanding count is then zero *)
-JoinAllRet(rc, count) ==
-    /\ rc = 0 /\ count = 0
-    /\ \A i \in Thr : kind[i] = "managed" => Finished(i)
+(* "Overrides how long, in nanoseconds, that aws_thread_join_all_managed will wait for threads to complete. A value of  *)
+(* zero will result in an unbounded wait."                                                                           *)
+SetJoinTimeout(ns) == jto' = WNorm(ns) /\ jt0' = jt0 /\ UNCHANGED tvars
+JoinAllBegin(t) == jt0' = WNorm(t) /\ jto' = jto /\ UNCHANGED tvars
+
+(* join-all reports success only after every managed thread has finished; the outstanding count is then zero.  With a *)
+(* time-out in force it may give up instead - never before the time-out has elapsed - and a successful bounded call  *)
+(* has returned by (about) its deadline.                                                                              *)
+JoinAllRet(rc, count, t) ==
+    /\ IF rc = 0
+       THEN /\ count = 0
+            /\ \A i \in Thr : kind[i] = "managed" => Finished(i)
+            /\ (~WIsZero(jto) => WLt(t, WAdd(WAdd(jt0, jto), JoinSlack)))
+       ELSE /\ ~WIsZero(jto)
+            /\ WLe(WAdd(jt0, jto), t)
     /\ UNCHANGED tvars
 
 (* end of the execution: everything launched has finished, every OS thread was joined, nothing leaked *)
